@@ -579,6 +579,7 @@ var badText = map[string]string{
 	"misplaced_dir":   " @deprecated",
 	"dir_unknown_arg": " @skip(unless: true)",
 	"dir_bad_arg":     " @skip(if: \"yes\")",
+	"dir_missing_arg": " @skip",
 }
 
 func (r *renderer) dirs(ds []Dir, raw string, bad string) {
